@@ -299,3 +299,66 @@ func vh_C07_BufferedScript() {
 	}
 	vfReach("end")
 }
+
+// ChannelQueue.PutWithTimeout: accepted while a consumer makes room within the timeout, ErrQueuePutTimeout otherwise;
+// an accepted value is delivered exactly once, a refused one never
+func vh_C07_PutWithTimeout() {
+	capacity := vfRange("cap", 0, 1)
+	q := NewChannelQueue[c07Item](capacity)
+	l := &c07Log{}
+	for i := 0; i < capacity; i++ {
+		l.accept(i, q.Offer(l.item(i)))
+	}
+	consumerLate := vfChoose("consumer-after-the-timeout", 2) == 1
+	done := make(chan struct{})
+	go func() {
+		if consumerLate {
+			time.Sleep(500 * time.Millisecond)
+		}
+		if v, err := q.TakeWithTimeout(time.Second); err == nil {
+			l.deliver(v)
+		}
+		close(done)
+	}()
+	err := q.PutWithTimeout(l.item(10), 200*time.Millisecond)
+	l.accept(10, err)
+	if consumerLate {
+		vfAssert("put-timeout-error", err == ErrQueuePutTimeout)
+	} else {
+		vfAssert("put-no-error", err == nil)
+	}
+	<-done
+	for len(l.delivered) < len(l.accepted) {
+		v, e := q.TakeWithTimeout(100 * time.Millisecond)
+		if e != nil {
+			break
+		}
+		l.deliver(v)
+	}
+	c07Check(l, true)
+	vfReach("end")
+}
+
+// the buffer maximum can be changed through its setter on a quiet queue: the bound and the full-error follow the new
+// value, and nothing accepted is lost (single goroutine plus the queue's own loader)
+func vh_C07_BufferLimitSetter() {
+	vfSetMapOrder(2)
+	q := NewBufferedChannelQueue[c07Item](1, vfRange("bufmax", 0, 1), 1)
+	newMax := vfRange("new-bufmax", 0, 2)
+	q.SetBufferSizeMaximum(newMax).SetLoadFromPoolDuration(time.Millisecond).SetNodeHookPoolSize(1).SetFreeNodeHookPoolIntervalDuration(time.Hour)
+	vfAssert("getter-agrees", q.GetBufferSizeMaximum() == newMax && q.GetLoadFromPoolDuration() == time.Millisecond && q.GetNodeHookPoolSize() == 1 && q.GetFreeNodeHookPoolIntervalDuration() == time.Hour)
+	l := &c07Log{}
+	for i := 0; i < 1+newMax+1; i++ {
+		err := q.Offer(l.item(i))
+		vfAssert("offer-error-is-full-or-nil", err == nil || err == ErrQueueIsFull)
+		l.accept(i, err)
+	}
+	vfAssert("bounded", len(l.accepted) <= 1+newMax)
+	vfAssert("filled", len(l.accepted) == 1+newMax) // nobody consumes: exactly channel + buffer are accepted
+	vfQuiesce()
+	vfAssert("count-at-quiescence", q.Count() == len(l.accepted))
+	c07DrainHow(q, l, len(l.accepted), vfChoose("drain-how", 2))
+	c07Check(l, true)
+	vfAssert("fifo", vfSliceEq(l.delivered, l.accepted))
+	vfReach("end")
+}
